@@ -19,7 +19,7 @@
     are the same message when all look-ups agree ([msg_equiv], [msg_eqb]).
     A Go [cid.Cid] is the string of its binary form, so [cid := bytes] and
     [cid.Cast] is a validity filter.  No proofs in this file. *)
-From Coq Require Import List ZArith Bool NArith.
+From Coq Require Import List ZArith Bool NArith Permutation.
 From V Require Import lib.Verdict.
 Import ListNotations.
 Open Scope Z_scope.
@@ -385,6 +385,15 @@ Section FromPb.
     forallb (fun ct : bytes * Z => amem (fst ct) (m_pres m) || amem (fst ct) (m_blocks m)) (pb_pres pb).
 End FromPb.
 
+(** API calls whose arguments are defined, well-formed CIDs and honest blocks *)
+Definition op_okb (H : prefix -> bytes -> option cid) (o : op) : bool :=
+  match o with
+  | OAddEntry c _ _ _ | OCancel c | OAddPresence c _ => validb c
+  | OAddBlock c d =>
+      validb c && match H (prefix_of c) d with Some c' => bytes_eqb c' c | None => false end
+  | ORemove _ | OSetPending _ | OReset _ => true
+  end.
+
 (** ---------- comparing messages as maps ---------- *)
 Definition ent_eqb (a b : ent) : bool :=
   (e_prio a =? e_prio b) && (e_wt a =? e_wt b) && Bool.eqb (e_cancel a) (e_cancel b) &&
@@ -413,6 +422,17 @@ Definition msg_equiv (a b : msg) : Prop :=
   (forall k, aget k (m_wl a) = aget k (m_wl b)) /\
   (forall k, aget k (m_blocks a) = aget k (m_blocks b)) /\
   (forall k, aget k (m_pres a) = aget k (m_pres b)).
+
+(** Go iterates its maps in an unspecified order: what ToProtoV1/ToProtoV0 really
+    produce is any [pb_perm]-variant of [to_pb_v1 m] / [to_pb_v0 m]. *)
+Definition pb_perm (a b : pbmsg) : Prop :=
+  match pb_wl a, pb_wl b with
+  | Some (ea, fa), Some (eb, fb) => Permutation ea eb /\ fa = fb
+  | None, None => True
+  | _, _ => False
+  end /\
+  Permutation (pb_blocks a) (pb_blocks b) /\ Permutation (pb_payload a) (pb_payload b) /\
+  Permutation (pb_pres a) (pb_pres b) /\ pb_pending a = pb_pending b.
 
 (** v0 keeps the want-list, the full flag and the block bytes (re-keyed by sha2-256) *)
 Definition v0_specb (H0 : bytes -> cid) (m m0 : msg) : bool :=
